@@ -391,6 +391,9 @@ func distrBlock(x *Exec, f *distrFam) string {
 			x.hit("C01", "distributor-created-coins", "supply", fmt.Sprintf("supply of %s grew from %s to %s in distributor BeginBlocker", d, b, a))
 		}
 	}
+	if msg, broken := bankkeeper.TotalSupply(app.BankKeeper)(ctx); broken {
+		x.hit("C01", "supply-equals-balances", "d.bb", msg)
+	}
 	states := f.keeper.GetAllStates(ctx)
 	mainAddr := authtypes.NewModuleAddress(distrtypes.DistributorMainAccount)
 	mainBal := app.BankKeeper.GetAllBalances(ctx, mainAddr)
